@@ -26,7 +26,28 @@ def finding_matches(f, prop, v):
         f['signature'] == v.get('signature')
 
 
+def _cleanup_scratch():
+    """scratch directories are per process (so that several commands can run at once); remove this process's own"""
+    import shutil
+    suffix = '.%d' % os.getpid()
+    for base in (common.WORK, os.path.join(common.WORK, 'runs')):
+        try:
+            names = os.listdir(base)
+        except OSError:
+            continue
+        for n in names:
+            if n.endswith(suffix):
+                shutil.rmtree(os.path.join(base, n), ignore_errors=True)
+
+
 def do_check(prop, tier, seed):
+    try:
+        return _do_check(prop, tier, seed)
+    finally:
+        _cleanup_scratch()
+
+
+def _do_check(prop, tier, seed):
     mod = importlib.import_module('checks.' + prop.lower())
     ctx = dict(tier=tier, seed=seed, prop=prop)
     t0 = time.time()
